@@ -33,15 +33,19 @@ Proof.
   now apply SL_refl.
 Qed.
 
-Lemma wake_cas2_new_eq old s :
-  wake_waiters_cas2_new old s = wrap_u 32 (Z.land (wrap_u 32 (Z.lor old s)) (4294967295 - 2)).
+Lemma wake_cas2_new_eq old s c :
+  wake_waiters_cas2_new old s c = wrap_u 32 (Z.land (wrap_u 32 (Z.lor old s)) (4294967295 - c)).
 Proof. reflexivity. Qed.
 
-Lemma wake_cas2_SL old s : rng old -> small s -> SL old (wake_waiters_cas2_new old s).
+(* clear_on_release is MU_SPINLOCK or MU_SPINLOCK | MU_WAITING: neither is a lock bit *)
+Lemma wake_cas2_SL old s c : rng old -> small s -> small c -> SL old (wake_waiters_cas2_new old s c).
 Proof.
-  intros R S. rewrite wake_cas2_new_eq.
-  apply SL_wland; [| apply small_2]. apply SL_wlor; [| exact S]. now apply SL_refl.
+  intros R S C. rewrite wake_cas2_new_eq.
+  apply SL_wland; [| exact C]. apply SL_wlor; [| exact S]. now apply SL_refl.
 Qed.
+
+Lemma small_6 : small (bor MU_SPINLOCK MU_WAITING).
+Proof. apply small_lor; [apply small_2 | apply small_4]. Qed.
 
 Lemma wake_cas_old_eq old : wake_waiters_cas1_old old = old /\ wake_waiters_cas2_old old = old.
 Proof. split; reflexivity. Qed.
@@ -70,7 +74,13 @@ Definition is_acq_pc (m : mode) (p : pc) : bool :=
   | LsRelLoad m' _ | LsRelCas m' _ _ | LsWaitLoad m' _ | LsSemP m' _ => mode_eqb m m'
   | _ => false
   end.
-Definition is_ok_cas (e : ev) : bool := match e with EvCas _ _ _ true => true | _ => false end.
+(* a successful CAS at one of the ACQUIRING sites of mu.c: nsync_mu_lock.1 / .3 (101, 103), nsync_mu_rlock.1 / .3
+   (201, 203), nsync_mu_lock_slow_.2 (502) *)
+Definition is_ok_cas (e : ev) : bool :=
+  match e with
+  | EvCas s _ _ true => (s =? 101) || (s =? 103) || (s =? 201) || (s =? 203) || (s =? 502)
+  | _ => false
+  end.
 
 Lemma mode_eqb_refl m : mode_eqb m m = true.  Proof. destruct m; reflexivity. Qed.
 Lemma mode_eqb_eq a b : mode_eqb a b = true -> a = b.  Proof. destruct a, b; auto; discriminate. Qed.
@@ -109,6 +119,7 @@ Proof.
   cbn [t_pc t_ops held sleeps last_try] in *.
   destruct p; try discriminate A; cbn [is_acq_pc] in A; apply mode_eqb_eq in A; subst;
     unfold cas; brk; cbn [fst snd]; normt Hs Ht; cbn [is_acq_pc is_ok_cas]; rewrite ?mode_eqb_refl; auto.
+  all: repeat match goal with m : mode |- _ => destruct m end; right; repeat split; reflexivity.
 Qed.
 
 End Steps.
@@ -127,7 +138,7 @@ Definition xpc_ok (s : tstate) (xp : xpc) : Prop :=
   | XwUnlock l => is_unl_pc (t_pc s) = true /\ w_m l = w_lm l
   | XwLoop l | XwSem l | XwLoad6 l | XwConfirm l | XwLoad13 l => t_pc s = Idle /\ held s = None /\ w_m l = w_lm l
   | XwReacq l => is_acq_pc (w_lm l) (t_pc s) = true /\ w_m l = w_lm l
-  | XvLoad3 k | XvCas2 k _ | XvLoad5 k => t_pc s = Idle /\ small (k_set k)
+  | XvLoad3 k | XvCas2 k _ | XvLoad5 k => t_pc s = Idle /\ small (k_set k) /\ small (k_clr k)
   | XkLoad _ | XkSelect _ | XvLoad1 _ | XvCas1 _ _ | XvStore _ | XvV _ _ => t_pc s = Idle
   end.
 (* every logged return of XWait m holds the mutex in mode m *)
@@ -349,15 +360,16 @@ Proof.
       assert (Inv n (set_word (mw xw) (wake_waiters_cas1_new old))) as HI2.
       { apply Inv_set_word_SL; [exact HI|]. subst old. apply wake_cas1_SL, (Inv_rng _ _ HI). }
       apply XInv_upd; [exact H0 | exact Ht | inv_conv HI2 | frame_tac | | exact Hr].
-      cbn [x_pc xpc_ok k_set]. split; [exact Hp | exact Hs].
+      cbn [x_pc xpc_ok k_set k_clr]. split; [exact Hp | split; [exact Hs|]].
+      destruct (queue (set_word (mw xw) (wake_waiters_cas1_new old)) ++ moved); [apply small_6 | apply small_2].
     + cbn [fst]. xn Hx. apply XInv_upd; [exact H0 | exact Ht | inv_conv HI | frame_tac | | exact Hr]. wk_tac k.
   - (* XvLoad3 *) assert (t < n)%nat as Ht by (apply HtN; discriminate).
     cbn [fst]; xn Hx; (apply XInv_upd; [exact H0 | exact Ht | inv_conv HI | frame_tac | exact Hp | exact Hr]).
-  - (* XvCas2 *) assert (t < n)%nat as Ht by (apply HtN; discriminate). destruct Hp as [PI Hs].
+  - (* XvCas2 *) assert (t < n)%nat as Ht by (apply HtN; discriminate). destruct Hp as (PI & Hs & Hsc).
     unfold cas. destruct (wake_cas_old_eq old) as [_ ->].
     destruct (Z.eqb_spec (word (mw xw)) old) as [Hc|Hc]; cbv beta iota; cbn [fst]; xn Hx.
-    + assert (Inv n (set_word (mw xw) (wake_waiters_cas2_new old (k_set k)))) as HI2.
-      { apply Inv_set_word_SL; [exact HI|]. subst old. apply wake_cas2_SL; [apply (Inv_rng _ _ HI) | exact Hs]. }
+    + assert (Inv n (set_word (mw xw) (wake_waiters_cas2_new old (k_set k) (k_clr k)))) as HI2.
+      { apply Inv_set_word_SL; [exact HI|]. subst old. apply wake_cas2_SL; [apply (Inv_rng _ _ HI) | exact Hs | exact Hsc]. }
       apply XInv_upd; [exact H0 | exact Ht | inv_conv HI2 | frame_tac | | exact Hr]. wk_tac k.
     + apply XInv_upd; [exact H0 | exact Ht | inv_conv HI | frame_tac | | exact Hr]. cbn [x_pc xpc_ok]. auto.
   - (* XvLoad5 *) assert (t < n)%nat as Ht by (apply HtN; discriminate).
